@@ -190,11 +190,23 @@ def rule_d(chk: Check, eng: Engine) -> None:
             chk.bad("R07-d", eng.relfile(fn), fn.line, fn.fq, f"{c.name} aggregates its sub-verdicts with {agg}()",
                     f"a {'conjunction/forall' if want[c.name] == 'all' else 'disjunction/exists'} must aggregate with {want[c.name]}()", keyparts=f"aggregator|{c.name}")
         breaks = [b for b in walk_local(fn.node) if isinstance(b, ast.Break)]
+        eval_fn, lst_names = fn, {v.lst}
+        if not breaks:
+            # the evaluation loop may live in a private helper whose result becomes the aggregated list (`values = self._evaluate_operands(...)`)
+            for a in walk_local(fn.node):
+                if isinstance(a, ast.Assign) and any(isinstance(t_, ast.Name) and t_.id == v.lst for t_ in a.targets) and isinstance(a.value, ast.Call) \
+                        and isinstance(a.value.func, ast.Attribute) and self_attr(a.value.func):
+                    h = c.lookup(a.value.func.attr)
+                    if h is not None and any(isinstance(b, ast.Break) for b in walk_local(h.node)):
+                        eval_fn = h
+                        lst_names = {r.value.id for r in walk_local(h.node) if isinstance(r, ast.Return) and isinstance(r.value, ast.Name)}
+                        breaks = [b for b in walk_local(h.node) if isinstance(b, ast.Break)]
         if not breaks:
             chk.bad("R07-d", eng.relfile(fn), fn.line, fn.fq, f"{c.name} has no lazy early exit although it takes a `lazy` flag", "lazy evaluation is not implemented as documented", keyparts=f"no-break|{c.name}")
             continue
         from ..core import parents_map, enclosing
 
+        fn = eval_fn
         pm = parents_map(fn.node)
         for b in breaks:
             iff = enclosing(pm, b, (ast.If,))
@@ -222,11 +234,11 @@ def rule_d(chk: Check, eng: Engine) -> None:
             # the deciding element is appended before the break
             loop = enclosing(pm, b, (ast.For, ast.While))
             apps = [n for n in ast.walk(loop) if isinstance(n, ast.Call) and isinstance(n.func, ast.Attribute) and n.func.attr == "append"
-                    and isinstance(n.func.value, ast.Name) and n.func.value.id == v.lst] if loop is not None else []
+                    and isinstance(n.func.value, ast.Name) and n.func.value.id in lst_names] if loop is not None else []
             if apps and apps[0].lineno < b.lineno:
                 chk.ok("R07-d", fn.fq, apps[0].lineno, f"`{short(apps[0])}` precedes the early exit: the deciding verdict is aggregated")
             else:
-                chk.bad("R07-d", eng.relfile(fn), b.lineno, fn.fq, f"the element that triggers the early exit is not appended to `{v.lst}` first",
+                chk.bad("R07-d", eng.relfile(fn), b.lineno, fn.fq, f"the element that triggers the early exit is not appended to `{sorted(lst_names)[0]}` first",
                         "the lazy verdict ignores the very element that decided it", keyparts=f"break-before-append|{c.name}")
 
 
@@ -297,8 +309,19 @@ def rule_f(chk: Check, eng: Engine) -> None:
         c = eng.cls(smod, cname)
         for mname in ("find", "find_direct"):
             m = eng.method(c, mname, inherited=False)
-            base_calls = [x for x in walk_local(m.node) if isinstance(x, ast.Call) and isinstance(x.func, ast.Attribute) and self_attr(x.func.value) == "base"]
-            attr_calls = [x for x in walk_local(m.node) if isinstance(x, ast.Call) and isinstance(x.func, ast.Attribute) and self_attr(x.func.value) == "attribute"]
+
+            def with_helpers(fn, depth: int = 0):
+                """nodes of fn and of the private helper methods of the same class it calls (a shared loop moved into `_find_in_bases`)"""
+                for x in walk_local(fn.node):
+                    yield x
+                    if depth < 2 and isinstance(x, ast.Call) and isinstance(x.func, ast.Attribute) and self_attr(x.func) and x.func.attr not in ("find", "find_direct", "find_all", "quantify"):
+                        h = c.lookup(x.func.attr)
+                        if h is not None and h is not fn:
+                            yield from with_helpers(h, depth + 1)
+
+            nodes_ = list(with_helpers(m))
+            base_calls = [x for x in nodes_ if isinstance(x, ast.Call) and isinstance(x.func, ast.Attribute) and self_attr(x.func.value) == "base"]
+            attr_calls = [x for x in nodes_ if isinstance(x, ast.Call) and isinstance(x.func, ast.Attribute) and self_attr(x.func.value) == "attribute"]
             ok = len(base_calls) == 1 and base_calls[0].func.attr == mname and len(attr_calls) == 1 and attr_calls[0].func.attr == attr_m  # type: ignore[union-attr]
             # the attribute search is applied to the trees of the base containers
             arg_ok = bool(attr_calls) and bool(attr_calls[0].args) and isinstance(attr_calls[0].args[0], ast.Name)
